@@ -165,6 +165,10 @@ def run(chk, tier):
         gv = sym.prune(sym.rebuild(fld(ret, "message_groups"), {}, known), known)
         want = [("atom", fld(S, "message_groups"))] + ([("elem", gp)] if some_g else [])
         got = listalg.seq(gv)
+        if got is not None:
+            # `groups.extend(open_group)`: an Option contributes its payload when present and nothing when absent
+            got = [(("elem", gp) if some_g else None) if x == ("atom", G) else x for x in got]
+            got = [x for x in got if x is not None]
         chk.ob("R-LIN", FN, got == want, "at end of input the open group is %s" % ("pushed" if some_g else "absent and nothing is pushed") if got == want else
                "at end of input the groups are %s although the open group %s: the last group is lost" % (listalg.show(got), "exists" if some_g else "is absent"), w, key="final-flush:%s" % some_g)
 
